@@ -7,7 +7,7 @@ use std::{
 };
 
 use divan::{
-    verif::{api, event, vstd, Ev},
+    verif::{api, event, untracked, vstd, Ev},
     AllocProfiler,
 };
 use serde_json::Value;
@@ -49,7 +49,7 @@ fn tally_json(t: api::Tally, unit: u64) -> String {
 fn run_script(ops: &[Value], unit: u64) {
     api::tally_clear();
     let t = api::tally_current(true).unwrap_or_default();
-    event(Ev::new("alloc_clear").raw("tally", &tally_json(t, unit)));
+    untracked(|| event(Ev::new("alloc_clear").raw("tally", &tally_json(t, unit))));
     let p = std::ptr::NonNull::<u64>::dangling().as_ptr().cast::<u8>();
     for o in ops {
         let op = o["op"].as_str().unwrap_or("alloc");
@@ -62,12 +62,12 @@ fn run_script(ops: &[Value], unit: u64) {
             "clear" => {
                 api::tally_clear();
                 let t = api::tally_current(false).unwrap_or_default();
-                event(Ev::new("alloc_clear").raw("tally", &tally_json(t, unit)));
+                untracked(|| event(Ev::new("alloc_clear").raw("tally", &tally_json(t, unit))));
                 continue;
             }
             "peek" => {
                 let t = api::tally_current(false).unwrap_or_default();
-                event(Ev::new("alloc_peek").raw("tally", &tally_json(t, unit)));
+                untracked(|| event(Ev::new("alloc_peek").raw("tally", &tally_json(t, unit))));
                 continue;
             }
             "alloc" => unsafe {
@@ -83,13 +83,15 @@ fn run_script(ops: &[Value], unit: u64) {
             _ => continue,
         }
         let t = api::tally_current(false).unwrap_or_default();
-        event(
-            Ev::new("alloc_step")
-                .s("op", op)
-                .u("size", size_units as u128)
-                .u("new", new_units as u128)
-                .raw("tally", &tally_json(t, unit)),
-        );
+        untracked(|| {
+            event(
+                Ev::new("alloc_step")
+                    .s("op", op)
+                    .u("size", size_units as u128)
+                    .u("new", new_units as u128)
+                    .raw("tally", &tally_json(t, unit)),
+            )
+        });
     }
 }
 
